@@ -531,6 +531,9 @@ fn cap_tree(b: &BoardState, p: &Pos, ep_in_ancestry: bool, full_depth: u32, deep
 }
 
 pub fn c13_case(start: &Pos, moves: &[Move], deep: &[u16], st: &mut Stats) -> CaseResult {
+    c13_case_depth(start, moves, deep, 3, st)
+}
+pub fn c13_case_depth(start: &Pos, moves: &[Move], deep: &[u16], full_depth: u32, st: &mut Stats) -> CaseResult {
     // reach the chain root by the engine's own full generation, as the search does
     let mut b = board_of(start)?;
     let mut p = start.clone();
@@ -553,7 +556,7 @@ pub fn c13_case(start: &Pos, moves: &[Move], deep: &[u16], st: &mut Stats) -> Ca
     }
     let mut cx = CapCtx { st, nodes: 0 };
     let mut path = vec![];
-    let r = cap_tree(&b, &p, false, 3, deep, &mut cx, &mut path);
+    let r = cap_tree(&b, &p, false, full_depth, deep, &mut cx, &mut path);
     r
 }
 
